@@ -51,10 +51,29 @@ func c08CompMode(comp string) string {
 	switch comp {
 	case "zeros":
 		return "takeover"
-	case "no-takeover", "bfinal":
+	case "no-takeover", "bfinal", "stored-open":
 		return "no-takeover"
 	}
 	return ""
+}
+
+// c08StoredOpen is a deflate stream made of non-final stored blocks holding p,
+// without the header byte of the sync-flush block that a conforming sender
+// leaves behind: the receiver's appended 00 00 ff ff then reads as a truncated
+// block. What such a stream inflates to is the sender's business; how many
+// bytes the receiver hands over before it stops is not.
+func c08StoredOpen(p []byte) []byte {
+	var out []byte
+	for first := true; first || len(p) > 0; first = false {
+		n := len(p)
+		if n > 65535 {
+			n = 65535
+		}
+		out = append(out, 0x00, byte(n), byte(n>>8), ^byte(n), ^byte(n>>8))
+		out = append(out, p[:n]...)
+		p = p[n:]
+	}
+	return out
 }
 
 // c08Payload is the application payload of message number idx.
@@ -62,7 +81,7 @@ func c08Payload(comp string, size, idx int) []byte {
 	switch comp {
 	case "zeros":
 		return make([]byte, size)
-	case "no-takeover", "bfinal":
+	case "no-takeover", "bfinal", "stored-open":
 		// compressible text with some variation
 		b := make([]byte, size)
 		for i := range b {
@@ -183,6 +202,8 @@ func c08One(c *fw.Ctx, cs c08Case) {
 		if cs.Comp == "bfinal" {
 			// the sender ends every message with a BFINAL=1 block (RFC 7692 7.2.3.4)
 			wire = def.MessageBFinal(payloads[i])
+		} else if cs.Comp == "stored-open" {
+			wire = c08StoredOpen(payloads[i])
 		} else if cs.Comp != "off" {
 			wire = def.Message(payloads[i])
 		}
@@ -216,6 +237,12 @@ func c08One(c *fw.Ctx, cs c08Case) {
 		}
 		within := L < 0 || int64(m.Size) <= L
 		where := fmt.Sprintf("message %d (%d bytes, framing %s, limit %d)", i, m.Size, m.Framing, L)
+		if within && cs.Comp == "stored-open" {
+			// a malformed ending: what a within-limit message decodes to is not judged,
+			// and nothing after it on this connection either
+			c.OutcomeStr(fmt.Sprintf("stored-open within L=%d size=%d got=%d err=%v", L, m.Size, len(r.data), r.err != nil))
+			return
+		}
 		if within {
 			if r.err != nil || !bytes.Equal(r.data, payloads[i]) {
 				c.Violate("C08/within-limit-not-delivered/"+cs.Comp, fmt.Sprintf("%s: %s is within the limit but was read as %d bytes (identical prefix: %d), err=%v", desc, where, len(r.data), c08CommonPrefix(r.data, payloads[i]), r.err), cs)
@@ -358,7 +385,7 @@ func c08DeclaredOverLimit(c *fw.Ctx, cs c08Case) {
 
 var c08Limits = []int64{0, 1, 2, 125, 126, 4096, c08DefaultLimit, 65536, -1}
 var c08Framings = []string{"one", "split-at-limit", "bytes", "empty-frags"}
-var c08Comps = []string{"off", "zeros", "no-takeover", "bfinal"}
+var c08Comps = []string{"off", "zeros", "no-takeover", "bfinal", "stored-open"}
 var c08APIs = []string{"read", "reader"}
 
 func c08Sizes(L int64, thorough bool) []int {
